@@ -657,3 +657,68 @@ def lin_atoms(e: ast.AST) -> dict[str, int]:
             if isinstance(c, ast.Constant) and isinstance(c.value, int) and not isinstance(c.value, bool):
                 return {k: v * c.value for k, v in lin_atoms(o).items() if v * c.value}
     return {norm(e): 1}
+
+
+def template_filters(repo: 'Repo', rel: str = 'dashlive/server/template_tags.py') -> dict[str, tuple[ast.AST, str]]:
+    """the Jinja filters a blueprint module registers: name -> (function node, how).  Recognised:
+    `@bp.app_template_filter([name])` on a def, `name = bp.app_template_filter('n')(func)` and
+    `bp.add_app_template_filter(func, name='n')`; `func` may be defined here or imported (then the
+    node is the function in the module it comes from)."""
+    tree = repo.tree(rel)
+    imports: dict[str, tuple[str, str]] = {}
+    for n in tree.body:
+        if isinstance(n, ast.ImportFrom) and n.module:
+            for a in n.names:
+                imports[a.asname or a.name] = (n.module, a.name)
+
+    def resolve(e: ast.AST) -> ast.AST | None:
+        if isinstance(e, ast.Name):
+            f = find_func(tree, e.id)
+            if f is not None:
+                return f
+            if e.id in imports:
+                mod, nm = imports[e.id]
+                mrel = mod.replace('.', '/') + '.py'
+                if repo.exists(mrel):
+                    return find_func(repo.tree(mrel), nm)
+        return None
+    out: dict[str, tuple[ast.AST, str]] = {}
+    for n in ast.walk(tree):
+        if isinstance(n, (ast.FunctionDef, ast.AsyncFunctionDef)):
+            for d in n.decorator_list:
+                dn = d.func if isinstance(d, ast.Call) else d
+                if isinstance(dn, ast.Attribute) and dn.attr in ('app_template_filter', 'template_filter'):
+                    name = n.name
+                    if isinstance(d, ast.Call):
+                        if d.args and isinstance(d.args[0], ast.Constant):
+                            name = d.args[0].value
+                        for k in d.keywords:
+                            if k.arg == 'name' and isinstance(k.value, ast.Constant):
+                                name = k.value.value
+                    out[name] = (n, 'decorator')
+        elif isinstance(n, ast.Call) and isinstance(n.func, ast.Call) and isinstance(n.func.func, ast.Attribute) \
+                and n.func.func.attr in ('app_template_filter', 'template_filter') and len(n.args) == 1:
+            # bp.app_template_filter('name')(func)
+            f = resolve(n.args[0])
+            name = None
+            if n.func.args and isinstance(n.func.args[0], ast.Constant):
+                name = n.func.args[0].value
+            for k in n.func.keywords:
+                if k.arg == 'name' and isinstance(k.value, ast.Constant):
+                    name = k.value.value
+            if name is None and isinstance(n.args[0], ast.Name):
+                name = n.args[0].id
+            if f is not None and name:
+                out[name] = (f, 'call')
+        elif isinstance(n, ast.Call) and isinstance(n.func, ast.Attribute) \
+                and n.func.attr in ('add_app_template_filter', 'add_template_filter') and n.args:
+            f = resolve(n.args[0])
+            name = n.args[0].id if isinstance(n.args[0], ast.Name) else None
+            if len(n.args) > 1 and isinstance(n.args[1], ast.Constant):
+                name = n.args[1].value
+            for k in n.keywords:
+                if k.arg == 'name' and isinstance(k.value, ast.Constant):
+                    name = k.value.value
+            if f is not None and name:
+                out[name] = (f, 'add')
+    return out
